@@ -51,10 +51,27 @@ class StmtMixin:
         must not return / break / continue / yield); the heap fields named in
         blk['modifies'] are havocked; it ends normally or by one of blk['raises']"""
         assigned = set()
+
+        def escapes(node, in_loop):
+            # break / continue of a loop that lies inside the block stay inside it
+            if isinstance(node, (ast.Return, ast.Yield, ast.YieldFrom)):
+                return type(node).__name__
+            if isinstance(node, (ast.Break, ast.Continue)) and not in_loop:
+                return type(node).__name__
+            if isinstance(node, (ast.FunctionDef, ast.Lambda)):
+                return None
+            inner = in_loop or isinstance(node, (ast.For, ast.While))
+            for ch in ast.iter_child_nodes(node):
+                # (the else: branch of a loop is outside it, but a break there is rare enough to stay rejected)
+                r = escapes(ch, inner)
+                if r:
+                    return r
+            return None
         for st in stmts:
+            bad = escapes(st, False)
+            if bad:
+                raise ContractError('abstracted block %r contains %s' % (blk.get('label'), bad))
             for n in ast.walk(st):
-                if isinstance(n, (ast.Return, ast.Break, ast.Continue, ast.Yield, ast.YieldFrom)):
-                    raise ContractError('abstracted block %r contains %s' % (blk.get('label'), type(n).__name__))
                 if isinstance(n, ast.Name) and isinstance(n.ctx, (ast.Store, ast.Del)):
                     assigned.add(n.id)
                 if isinstance(n, (ast.Import, ast.ImportFrom)):
